@@ -30,10 +30,11 @@ const (
 	c12WriteRead
 	c12Stream
 	c12DecodeForeign
+	c12DecodeThenRead
 	nC12Op
 )
 
-var c12OpNames = []string{"ToBytes", "ToBytes+ToObject", "WriteTo+ReadFrom", "stream(WriteObject x2, ReadObject x2)", "ToObject(stream of a peer: evolved class / foreign encodings)"}
+var c12OpNames = []string{"ToBytes", "ToBytes+ToObject", "WriteTo+ReadFrom", "stream(WriteObject x2, ReadObject x2)", "ToObject(stream of a peer: evolved class / foreign encodings)", "ToObject(bytes holding two values) then Read"}
 
 type c12Op struct {
 	kind int
@@ -168,6 +169,24 @@ func c12Exec(in *c12Inst, sh *c12Shared, op c12Op) (res *c12Res) {
 			addVal(in.ser.ReadFrom(rd))
 		} else {
 			addVal(in.dec.ReadFrom(rd))
+		}
+	case c12DecodeThenRead:
+		// a byte slice holding two values: the first is taken with the one-shot call, the second with the
+		// streaming read on the same instance
+		var buf bytes.Buffer
+		if in.ser != nil {
+			res.errs = append(res.errs, maskErr(in.ser.WriteTo(&buf, sh.inputs[op.a])))
+			res.errs = append(res.errs, maskErr(in.ser.Write(sh.inputs[op.b])))
+			data := append([]byte(nil), buf.Bytes()...)
+			addVal(in.ser.ToObject(data))
+			addVal(in.ser.Read())
+		} else {
+			in.enc.Reset(&buf)
+			res.errs = append(res.errs, maskErr(in.enc.WriteObject(sh.inputs[op.a])))
+			res.errs = append(res.errs, maskErr(in.enc.WriteObject(sh.inputs[op.b])))
+			data := append([]byte(nil), buf.Bytes()...)
+			addVal(in.dec.Decode(data))
+			addVal(in.dec.ReadObject())
 		}
 	case c12DecodeForeign:
 		b := sh.foreign[op.a%len(sh.foreign)]
